@@ -60,8 +60,11 @@ def view_coherence(ctx, d1):
     n_views = 0
     for f in prog.module(IX).functions.values():
         pass
-    txt = prog.module(IX).source
-    n_views = len(re.findall(r'(MassFlowDict|VolumetricFlowDict)\((self\.data\.dct|i\.dct)', txt))
+    n_views = 0
+    for n in ast.walk(prog.module(IX).tree):
+        if isinstance(n, ast.Call) and src(n.func) in ('MassFlowDict', 'VolumetricFlowDict') and n.args \
+                and isinstance(n.args[0], ast.Attribute) and n.args[0].attr == 'dct':
+            n_views += 1
     ctx.anchor(n_views >= 4, 'by_mass/by_volume no longer wrap the molar dicts (found %d view constructions)' % n_views)
     for rel in (IX, ST, MS):
         for f in prog.all_functions():
@@ -244,26 +247,33 @@ def inverse_pairs(ctx, d2):
 def dimension(ctx, d3):
     prog = ctx.prog
     f = prog.method('Stream', '_get_flow_name_and_factor', rel=ST)
+    up = f.params[1]
+    dims = {t.id for n in walk_no_nested(f.node) if isinstance(n, ast.Assign) and 'get_dimensionality(%s)' % up in src(n.value)
+            for t in n.targets if isinstance(t, ast.Name)}
     chain = None
     for n in walk_no_nested(f.node):
-        if isinstance(n, ast.If) and 'dimensionality ==' in src(n.test):
+        if isinstance(n, ast.If) and isinstance(n.test, ast.Compare) and src(n.test.left) in dims and isinstance(n.test.ops[0], ast.Eq):
             chain = n
             break
     if chain is None:
         raise AnalysisError('dimension dispatch not found')
+    rets = [r for r in walk_no_nested(f.node) if isinstance(r, ast.Return) and isinstance(r.value, ast.Tuple) and len(r.value.elts) == 2]
+    if not rets:
+        raise AnalysisError('_get_flow_name_and_factor: (name, factor) return not found')
+    name_v, factor_v = (src(e) for e in rets[0].value.elts)
     cur = chain
     n = 0
     while True:
-        m = re.match(r'^dimensionality == (\w+)_units\.dimensionality$', src(cur.test))
+        m = re.match(r'^(\w+)_units\.dimensionality$', src(cur.test.comparators[0])) if isinstance(cur.test, ast.Compare) and src(cur.test.left) in dims else None
         if not m:
             d3.fail('Stream._get_flow_name_and_factor', 'test-shape', 'unexpected dimension test %s' % src(cur.test), f, cur)
             break
         k = m.group(1)
         body = {src(s.targets[0]): src(s.value) for s in cur.body if isinstance(s, ast.Assign)}
-        if body.get('name') == repr(k) and body.get('factor') == '%s_units.conversion_factor(units)' % k:
+        if body.get(name_v) == repr(k) and body.get(factor_v) == '%s_units.conversion_factor(%s)' % (k, up):
             d3.ok('Stream._get_flow_name_and_factor[%s]' % k, 'name %r with the factor of %s_units' % (k, k), f, cur)
         else:
-            d3.fail('Stream._get_flow_name_and_factor[%s]' % k, 'factor-mismatch', 'dimension %s yields %s' % (k, body), f, cur)
+            d3.fail('Stream._get_flow_name_and_factor[%s]' % k, 'factor-mismatch', 'dimension %s yields %s' % (k, sorted(body.values())), f, cur)
         n += 1
         if len(cur.orelse) == 1 and isinstance(cur.orelse[0], ast.If):
             cur = cur.orelse[0]
